@@ -564,7 +564,7 @@ def build_legacy_sampler(ctx, sc, callback=None):
         target = (target.likelihood, target.prior)
     k = dict(sc["knobs"])
     if k.get("x0") is not None:
-        k["x0"] = np.array(k["x0"], float)
+        k["x0"] = np.array(k["x0"]) if all(isinstance(v, int) for v in k["x0"]) else np.array(k["x0"], float)
     else:
         k.pop("x0", None)
     if isinstance(k.get("scale"), list):
